@@ -17,7 +17,8 @@ from mc.sim import SimMachine, parse_struct_file
 
 PROPERTY = "C20"
 LEVEL = "model_checking"
-TECHNIQUE = ("explicit-state enumeration of boot-call histories (depth 3) on "
+TECHNIQUE = ("explicit-state enumeration of boot-call histories (depth 3; "
+             "thorough 4) on "
              "the real boot code with a capturing socket, reference struct "
              "packer and fresh-state differential oracle")
 RULE = ("alphabet: no options, each board preset, arbitrary overrides "
@@ -80,7 +81,7 @@ def alphabet():
 
 
 def scope(tier):
-    return dict(depth=3, alphabet=[a[0] for a in alphabet()],
+    return dict(depth=3 if tier == "quick" else 4, alphabet=[a[0] for a in alphabet()],
                 image_sizes=SIZES + ["bundled"])
 
 
@@ -295,7 +296,7 @@ def part_hist(params, tier, acc):
     n = len(alphabet())
     states = set()
     first = params["first"]
-    for depth in (1, 2, 3):
+    for depth in range(1, scope(tier)["depth"] + 1):
         for rest in itertools.product(range(n), repeat=depth - 1):
             hist = (first,) + rest
             # histories are prefix-closed: only the last call is new, but the
